@@ -26,7 +26,19 @@ def keepalive_roles(F):
             if a["crate"] != MQ or len(a["variants"]) != 1:
                 continue
             tys = [f["ty"] for f in a["variants"][0]["fields"]]
-            boxed = lambda t: "Mutex<core::option::Option<alloc::boxed::Box<" in t and "dyn " in t
+            def boxed(t, depth=1):
+                """the shared release slot: `Mutex<Option<Box<dyn ..>>>`, written out or behind a private newtype / state enum of the crate"""
+                if "Mutex<core::option::Option<alloc::boxed::Box<" in t and "dyn " in t:
+                    return True
+                if depth <= 0:
+                    return False
+                for d2, a2 in F.adts.items():
+                    if a2["crate"] == MQ and (d2 + ">") in t.replace(d2 + "<", d2 + ">"):
+                        ftys = [f2["ty"] for v2 in a2["variants"] for f2 in v2["fields"]]
+                        # a newtype around the mutex, or (inside `Mutex<..>`) a state enum one of whose variants holds the boxed action
+                        if any(boxed(ft, depth - 1) for ft in ftys) or ("Mutex<" + d2 in t and any(ft.startswith("alloc::boxed::Box<dyn ") or ft.startswith("alloc::boxed::Box<(dyn ") for ft in ftys)):
+                            return True
+                return False
             if len(tys) == 1 and tys[0].startswith("alloc::sync::Arc<") and boxed(tys[0]):
                 guard.add(d)
             if len(tys) == 1 and tys[0].startswith("alloc::sync::Weak<") and boxed(tys[0]):
